@@ -457,8 +457,7 @@ func (e *kvElection) attemptPriorityTakeover(payloadBytes []byte) error {
 	}
 
 	if e.cfg.Priority <= currentPayload.Priority {
-		e.leaderID.Store(currentPayload.ID)
-		e.revision.Store(entry.Revision())
+		e.observeLeader(currentPayload.ID, entry.Revision())
 		return fmt.Errorf("current leader has equal or higher priority: %d >= %d", currentPayload.Priority, e.cfg.Priority)
 	}
 
@@ -489,8 +488,6 @@ func (e *kvElection) attemptPriorityTakeover(payloadBytes []byte) error {
 	}
 
 	e.verifYield("takeover.updated")
-	e.revision.Store(newRev)
-	e.token.Store(newPayloadStruct.Token)
 	e.becomeLeader(newPayloadStruct.Token, newRev)
 	return nil
 }
@@ -565,6 +562,21 @@ func (e *kvElection) becomeFollowerLocked() bool {
 	}
 
 	return wasLeader
+}
+
+// observeLeader records what a non-leader learned about the current record.
+// The revision and leader id of an instance that leads belong to its own
+// term (the heartbeat presents that revision on every refresh); follower-side
+// code that was already running when the instance got promoted must not
+// overwrite them with another leader's values.
+func (e *kvElection) observeLeader(id string, rev uint64) {
+	e.mu.Lock()
+	defer e.mu.Unlock()
+	if e.isLeader.Load() {
+		return
+	}
+	e.leaderID.Store(id)
+	e.revision.Store(rev)
 }
 
 // runOnDemote invokes the OnDemote callback, if one is registered.
